@@ -70,7 +70,28 @@ def judge_addr(case) -> Verdict:
 
 
 @st.composite
+def group_under_net(draw):
+    """top = one contiguous network; bottom = a group of 3..6 members, each inside the top with high
+    probability (so that a single outsider at ANY position decides the answer)."""
+    plen = draw(st.integers(8, 28))
+    w = (1 << (32 - plen)) - 1
+    base = draw(G.base_st()) & ~w & R.ALL1
+    top = {"k": "wild" if draw(st.booleans()) else "prefix", "b": base, "w": w}
+    mem = []
+    for _ in range(draw(st.integers(3, 6))):
+        mlen = draw(st.integers(plen, 32))
+        mw = (1 << (32 - mlen)) - 1
+        inside = draw(st.sampled_from([True, True, True, True, False]))
+        mb = (base | (draw(st.integers(0, R.ALL1)) & w)) if inside else (base ^ (1 << draw(st.integers(32 - plen, 31))))
+        mem.append([mb & ~mw & R.ALL1, mw])
+    return top, {"k": "group", "b": 0, "w": 0, "n": "G1", "m": mem}
+
+
+@st.composite
 def addr_pair_st(draw, tier):
+    if draw(st.sampled_from(range(5))) == 0:
+        a, b = draw(group_under_net())
+        return {"a": a, "b": b, "pa": draw(st.sampled_from(["ios", "nxos"])), "pb": draw(st.sampled_from(["ios", "nxos"]))}
     kmax = draw(st.sampled_from([4, 4, 4, 4, 7]))  # 2^7 x 2^7 prefixes: large expansions, still cheap
     a = draw(G.addr_st(kmax=kmax, groups=True))
     b = draw(G.mutate_addr(a, kmax=kmax, groups=True))
